@@ -25,7 +25,7 @@ NAME = "sampling"
 RULE = ("rounds: 1-40 cards, 1-5 contests, random styles (cards listing nothing, phantoms), distinct random sample "
         "numbers (256-bit or small), 1-4 rounds of non-decreasing size vectors incl. 0 and the maximum, scratch/continue "
         "per round; malformed streams: equal sample numbers, sizes beyond the maximum (IndexError), decreasing sizes; "
-        "exhaustive part: every style sequence of <=3 (quick) / <=5 (thorough) cards x 2 contests x every feasible "
+        "exhaustive part: every style sequence of <=4 (quick) / <=5 (thorough) cards x 2 contests x every feasible "
         "size vector; cs/assign/prep/data/proved as described in the module docstring; non-trivial = at least two "
         "contests with different positive sizes sharing a card, or an error branch; distinct = distinct canonical input")
 EXHAUSTIVE = {"quick": False, "thorough": False}
@@ -566,7 +566,7 @@ def corpus():
 
 def gen(rng, n, tier):
     count = 0
-    ex = list(gen_exhaustive(rng, 3 if tier == "quick" else 5))
+    ex = list(gen_exhaustive(rng, 4 if tier == "quick" else 5))
     if len(ex) > n // 2:
         # never truncate silently in the thorough tier: budgets are chosen so that everything fits
         rng.shuffle(ex)
